@@ -606,6 +606,35 @@ func (p *Program) cellStores(alloc *ssa.Alloc) []*ssa.Store {
 			}
 		}
 	}
+	// the cell's address handed to a module function (go pump(…, &inErr, &wg)): what that function stores through
+	// the pointer parameter
+	if refs := alloc.Referrers(); refs != nil {
+		for _, ref := range *refs {
+			c, ok := ref.(ssa.CallInstruction)
+			if !ok || c.Common().IsInvoke() {
+				continue
+			}
+			callee := c.Common().StaticCallee()
+			if callee == nil || !p.InModule(callee) || len(callee.Blocks) == 0 {
+				continue
+			}
+			for i, a := range c.Common().Args {
+				if a != ssa.Value(alloc) || i >= len(callee.Params) {
+					continue
+				}
+				par := callee.Params[i]
+				for _, fn := range allFuncsDeep(callee) {
+					for _, b := range fn.Blocks {
+						for _, in := range b.Instrs {
+							if st, ok := in.(*ssa.Store); ok && p.cellRoot(st.Addr) == ssa.Value(par) {
+								out = append(out, st)
+							}
+						}
+					}
+				}
+			}
+		}
+	}
 	return out
 }
 
